@@ -470,16 +470,21 @@ def assemble(tmpl_path, out_path, canary=False):
     for idx, rng in item_lines.items():
         items[idx]['out_lines'] = rng
     os.makedirs(os.path.dirname(out_path), exist_ok=True)
-    with open(out_path, 'w', encoding='utf-8') as f:
+    # atomic: two checks that share a unit may assemble it at the same time (the text is the same)
+    _tmp = '%s.%d.%d.tmp' % (out_path, os.getpid(), __import__('threading').get_ident())
+    with open(_tmp, 'w', encoding='utf-8') as f:
         f.write(full)
+    os.replace(_tmp, out_path)
     canary_lines = []
     for li, ln in enumerate(full.split('\n')):
         m = re.search(r'/\*CANARY:([^*]*)\*/', ln)
         if m:
             canary_lines.append({'line': li + 1, 'what': m.group(1)})
     meta = {'template': tmpl_path, 'out': out_path, 'items': items, 'linemap': linemap, 'canary_lines': canary_lines, 'safety_props': safety_props}
-    with open(out_path + '.map.json', 'w') as f:
+    _tmp = '%s.map.json.%d.%d.tmp' % (out_path, os.getpid(), __import__('threading').get_ident())
+    with open(_tmp, 'w') as f:
         json.dump(meta, f)
+    os.replace(_tmp, out_path + '.map.json')
     return meta
 
 
